@@ -19,6 +19,7 @@ from liquid.token import TOKEN_ELSE
 from liquid.token import TOKEN_EOF
 from liquid.token import TOKEN_FALSE
 from liquid.token import TOKEN_FLOAT
+from liquid.token import TOKEN_IDENTSTRING
 from liquid.token import TOKEN_IF
 from liquid.token import TOKEN_INTEGER
 from liquid.token import TOKEN_LBRACKET
@@ -53,6 +54,7 @@ FILTER_TOKENS = set(  # noqa: C405
         TOKEN_NIL,
         TOKEN_NULL,
         TOKEN_RANGE_LITERAL,
+        TOKEN_IDENTSTRING,
         TOKEN_LBRACKET,
         TOKEN_LPAREN,
         TOKEN_WORD,
